@@ -179,6 +179,9 @@ pub enum Op {
     AddElem { msg: MsgSel, idx: u16, delta: ValSel },
     /// the same at an exact element index (used by the exhaustive position sweep)
     AddElemAt { msg: MsgSel, at: usize, delta: ValSel },
+    /// ONE message altered at two elements: element a += δ and element b ± δ (differences that
+    /// cancel in a decision computed from a sum of the individual checks)
+    AddElemPair { msg: MsgSel, a: usize, b: usize, delta: ValSel, neg: bool },
     Truncate { msg: MsgSel, k: u8 },
     Extend { msg: MsgSel, k: u8 },
     SwapInputShares { i: u8, j: u8 },
@@ -228,6 +231,7 @@ fn op_strategy() -> BoxedStrategy<Op> {
         2 => (msgsel(), any::<u16>(), 1u8..=255).prop_map(|(msg, pos, mask)| Op::XorByte { msg, pos, mask }),
         3 => (msgsel(), any::<u64>(), 2u8..=6, 0u8..4, 1u8..=255).prop_map(|(msg, seed, k, mode, mask)| Op::XorMulti { msg, seed, k, mode, mask }),
         6 => (msgsel(), any::<u16>(), valsel()).prop_map(|(msg, idx, delta)| Op::AddElem { msg, idx, delta }),
+        2 => (msgsel(), any::<u16>(), any::<u16>(), valsel(), any::<bool>()).prop_map(|(msg, a, b, delta, neg)| Op::AddElemPair { msg, a: if a % 3 == 0 { 0 } else { a as usize }, b: if b % 3 == 0 { usize::MAX } else { b as usize }, delta, neg }),
         1 => (msgsel(), 1u8..=40).prop_map(|(msg, k)| Op::Truncate { msg, k }),
         1 => (msgsel(), 1u8..=3).prop_map(|(msg, k)| Op::Extend { msg, k }),
         1 => (any::<u8>(), any::<u8>()).prop_map(|(i, j)| Op::SwapInputShares { i, j }),
@@ -421,6 +425,26 @@ fn mutate_bytes(b: &mut Vec<u8>, op: &Op, elem_size: usize, elem_region: (usize,
                 b[i / 8] ^= 1 << (i % 8);
             }
         }
+        Op::AddElemPair { a, b: bb, delta, neg, .. } => {
+            let (start, count) = elem_region;
+            if count >= 2 && start + count * elem_size <= b.len() {
+                let (ia, ib) = (*a % count, *bb % count);
+                if ia != ib {
+                    let mut d = delta.big(p);
+                    if d.is_zero() {
+                        d = BigUint::one();
+                    }
+                    for (k, sub) in [(ia, false), (ib, *neg)] {
+                        let i = start + k * elem_size;
+                        let cur = BigUint::from_bytes_le(&b[i..i + elem_size]);
+                        let nv = if sub { (cur + p - &d) % p } else { (cur + &d) % p };
+                        let mut nb = nv.to_bytes_le();
+                        nb.resize(elem_size, 0);
+                        b[i..i + elem_size].copy_from_slice(&nb);
+                    }
+                }
+            }
+        }
         Op::Truncate { k, .. } => {
             let k = (*k as usize).min(b.len());
             let n = b.len() - k;
@@ -597,7 +621,7 @@ impl<'a> VdafVisitor for Run<'a> {
                                     }
                                 }
                             }
-                            Op::FlipBit { msg, .. } | Op::XorByte { msg, .. } | Op::XorMulti { msg, .. } | Op::AddElem { msg, .. } | Op::AddElemAt { msg, .. } | Op::Truncate { msg, .. } | Op::Extend { msg, .. } => match msg {
+                            Op::FlipBit { msg, .. } | Op::XorByte { msg, .. } | Op::XorMulti { msg, .. } | Op::AddElem { msg, .. } | Op::AddElemAt { msg, .. } | Op::AddElemPair { msg, .. } | Op::Truncate { msg, .. } | Op::Extend { msg, .. } => match msg {
                                 MsgSel::PublicAll => {
                                     let mut b = publics[0].clone();
                                     let ch = mutate_bytes(&mut b, op, es, (0, 0), &p);
@@ -717,7 +741,7 @@ impl<'a> VdafVisitor for Run<'a> {
                                     }
                                 }
                             }
-                            Op::FlipBit { msg: sel, .. } | Op::XorByte { msg: sel, .. } | Op::XorMulti { msg: sel, .. } | Op::AddElem { msg: sel, .. } | Op::AddElemAt { msg: sel, .. } | Op::Truncate { msg: sel, .. } | Op::Extend { msg: sel, .. } => match sel {
+                            Op::FlipBit { msg: sel, .. } | Op::XorByte { msg: sel, .. } | Op::XorMulti { msg: sel, .. } | Op::AddElem { msg: sel, .. } | Op::AddElemAt { msg: sel, .. } | Op::AddElemPair { msg: sel, .. } | Op::Truncate { msg: sel, .. } | Op::Extend { msg: sel, .. } => match sel {
                                 MsgSel::MessageAll => {
                                     let mut b = msgs[0].clone();
                                     let ch = mutate_bytes(&mut b, op, es, (0, 0), &p);
@@ -909,6 +933,26 @@ impl Check for C02 {
                     }
                 }
             }
+            // every pair of elements of each aggregator's verifier share, altered by (δ, δ) and
+            // (δ, −δ) as ONE alteration of that message
+            if v_elems >= 2 && v_elems <= 40 {
+                for j in 0..n {
+                    for a in 0..v_elems {
+                        for b in a + 1..v_elems {
+                            for neg in [false, true] {
+                                i += 1;
+                                if i % nshards != shard {
+                                    continue;
+                                }
+                                let c = Case::Tamper { cfg: cfg.clone(), ctx: Hex(b"sweep".to_vec()), key_seed: 5000 + (a * v_elems + b) as u64, nonce_seed: 52 + ci as u64, rand_seed: 62 + ci as u64, meas: meas.clone(), ops: vec![Op::AddElemPair { msg: MsgSel::VerifierShare(j as u8), a, b, delta: [ValSel::One, ValSel::Rand(17 + a as u64)][(a + b) % 2], neg }] };
+                                if !f(c) {
+                                    return;
+                                }
+                            }
+                        }
+                    }
+                }
+            }
             for (msg, count) in targets {
                 for at in 0..count {
                     i += 1;
@@ -925,7 +969,7 @@ impl Check for C02 {
         }
     }
     fn enumerated_space(&self, tier: Tier) -> Option<String> {
-        Some(format!("{} fixed configurations × every field-element position of the leader input share (measurement and proof shares) and of every aggregator's verifier share, each altered by a non-zero delta; for the types with a linear relation (histogram, multihot, L1-bound) every ordered pair of positions of the encoded vector altered so that the linear relation still holds, sharded with an honest proof", sweep_cfgs(tier).len()))
+        Some(format!("{} fixed configurations × every field-element position of the leader input share (measurement and proof shares) and of every aggregator's verifier share, each altered by a non-zero delta, and every pair of elements of every verifier share altered by (δ, ±δ) as one alteration; for the types with a linear relation (histogram, multihot, L1-bound) every ordered pair of positions of the encoded vector altered so that the linear relation still holds, sharded with an honest proof", sweep_cfgs(tier).len()))
     }
     fn run(&self, case: &Case) -> Outcome {
         let mut obs = Obs::new();
